@@ -357,7 +357,7 @@ fn depth(tier: &str) -> usize {
 pub fn meta(tier: &str) -> Meta {
     Meta {
         level: "model_checking",
-        rule: "three real members, one epoch, encrypted handshake: every interleaving up to the depth bound of application sends by two senders, an encrypted proposal, delivery of any outstanding message in any order, write+reload of receiver or sender; oracles: every content AEAD seal recorded by the provider wrapper has a (key, nonce) never used before, application and handshake keys of a sender are disjoint, the sender's key equals the receiver's ratchet key of that generation and nonce = ratchet nonce XOR the freshly drawn 4-byte reuse guard; every first delivery succeeds with the right content; after every delivery and reload every already delivered ciphertext is re-offered on a fork and must be refused; plus the 1024-generation window boundary (gaps 1, 2, 1023, 1024, 1025, with and without reload); a state = (per message: sender, ratchet, generation, delivered)".into(),
+        rule: "three real members, one epoch, encrypted handshake: every interleaving up to the depth bound of application sends by two senders, an encrypted proposal, delivery of any outstanding message in any order, write+reload of receiver or sender; oracles: every content AEAD seal recorded by the provider wrapper has a (key, nonce) never used before, application and handshake keys of a sender are disjoint, the sender's key equals the receiver's ratchet key of that generation and nonce = ratchet nonce XOR the freshly drawn 4-byte reuse guard; every first delivery succeeds with the right content; after every delivery and reload every already delivered ciphertext is re-offered on a fork and must be refused; plus the 1024-generation window boundary (gaps 1, 2, 1023, 1024, 1025, with and without reload); plus one message in each of three consecutive past epochs delivered late in all 6 orders x 16 write patterns of the receiver x reload, each re-offered after every delivery and after another write + reload (must decrypt exactly once); a state = (per message: sender, ratchet, generation, delivered)".into(),
         assumptions: {
             let mut a = default_assumptions();
             a.push("a rollback of the sender (crash with unwritten sends) reuses generations by design and is protected only by the 32-bit reuse guard; the check verifies the guard is drawn and applied, not that 32 random bits never collide".into());
